@@ -578,6 +578,12 @@ def evaluate(L, W, cases, pid, use_oracle=True):
             o["go"] = "skipped"
             continue
         if st == "bad" or g_2.startswith("bad") or g_3.startswith("bad"):
+            if cs["wf"] and "does not fit" in g_rt:
+                # a value inside the wire width of its field (the case is in the theorem's domain) that the
+                # Go struct cannot hold: the field's Go type is narrower than the field on the wire
+                F(Finding("go-type-narrower-than-wire:" + nm, "a value representable in the field's bit width cannot be stored in the Go struct "
+                          "(so it cannot survive decode(encode v)): %s" % g_rt[:200], True))
+                continue
             F(Finding("harness-bad-request:" + nm, "the Go worker rejected a generated tree: %s / %s" % (g_rt[:200], g_2[:200]), False))
             continue
         # ---- C01, JSON clause: correspondence of the JSON model with encoding/json (all cases: the
